@@ -999,6 +999,7 @@ type shapeInfo struct {
 	Delegations int    `json:"distinct_delegations"`
 	Verifies    int    `json:"verifications"`
 	Bound       int    `json:"bound"`
+	Millis      int64  `json:"wall_ms"` // wall time of building + validating the world (work that is not signature verification shows here)
 }
 
 // layered DAG: `depth` layers of `width` tokens; every token of a layer cites every token of the next
@@ -1221,6 +1222,7 @@ func init() {
 				shapes = append(shapes, k)
 			}
 		}
+		slowStop := false
 		for _, s := range shapes {
 			for _, rootOK := range []bool{true, false} {
 				if deepOK[s] && !rootOK {
@@ -1229,15 +1231,24 @@ func init() {
 				w := shapeWorld(o.seed, id, s.shape, s.width, s.depth, rootOK)
 				label := fmt.Sprintf("%s width=%d depth=%d root_ok=%v", s.shape, s.width, s.depth, rootOK)
 				labels[id] = label
+				t0 := time.Now()
 				c, obs, err := runAndRender(w, st, label)
 				if err != nil {
 					return err
 				}
+				elapsed := time.Since(t0).Milliseconds()
 				cases = append(cases, c)
 				n := len(w.Specs) // distinct delegations carried (including the invocation)
 				infos = append(infos, shapeInfo{World: id, Shape: s.shape, Width: s.width, Depth: s.depth, RootOK: rootOK,
-					Delegations: n, Verifies: len(obs.Verifies), Bound: n*n + 2})
+					Delegations: n, Verifies: len(obs.Verifies), Bound: n*n + 2, Millis: elapsed})
 				id++
+				if elapsed > 10000 {
+					slowStop = true // reported by the check; the remaining shapes would only take longer
+					break
+				}
+			}
+			if slowStop {
+				break
 			}
 		}
 		infos = append(infos, c19ServerManyCaps(o.seed, id)...)
